@@ -118,7 +118,7 @@ const LOADABLE2: &[&str] = &["Long", "Double", "Dynamic"];
 pub const HANDLE_KINDS: [&str; 9] =
 	["getfield", "getstatic", "putfield", "putstatic", "invokevirtual", "invokestatic", "invokespecial", "newinvokespecial", "invokeinterface"];
 
-const MAX_DYN_DEPTH: usize = 16;
+const MAX_DYN_DEPTH: usize = 300;
 const MAX_DYN_NODES: usize = 200_000;
 const MAX_EV_DEPTH: usize = 64;
 
